@@ -406,38 +406,52 @@ def textStep (c : Codec) (e : Endian) (textStart : Nat)
   | .err er => .err er
   | .panic => .panic
 
+/-- The last part of `serialize` (`:386-416`): grouped string pointers, header, concatenation.
+`dataLen` is `self.data.len()`, `data` the patched copy. -/
+def assemble (e : Endian) (dataLen : Nat) (data rawCStrings : Bytes) (rawPointers : List Nat)
+    (groups : List (Nat × List Nat)) (rawLabels : List Nat) (rawText : Bytes) : Bytes :=
+  let rawPointers := rawPointers ++ groups.flatMap (fun g => sortNat (g.2.map (· % 2 ^ 32)))
+  let fileSize := dataLen + rawCStrings.length + rawPointers.length * 4
+    + rawLabels.length * 4 + rawText.length + 0x20
+  let header := u32s e [fileSize, (data.length % 2 ^ 32 + rawCStrings.length % 2 ^ 32),
+    rawPointers.length, rawLabels.length / 2] ++ List.replicate 16 0
+  header ++ data ++ rawCStrings ++ u32s e rawPointers ++ u32s e rawLabels ++ rawText
+
 /-- `serialize` from the pointer sort on (`:345-416`): `rawCStrings` is the padded pool,
 `pointers` the internal pointers followed by the c-string pointers. -/
 def serializeTail (c : Codec) (e : Endian) (data0 rawCStrings : Bytes) (pointers : List (Nat × Nat))
-    (labels : UMap Nat (List Str)) (text : UMap Nat Str) : Res Bytes := do
+    (labels : UMap Nat (List Str)) (text : UMap Nat Str) : Res Bytes :=
   -- internal pointers (plus c-string pointers), ascending by source
-  let pointers := pointers.mergeSort bySource
-  let data ← pointers.foldlM (init := data0) (fun d p => patchWord e d p.1 p.2)
-  let rawPointers := pointers.map (·.1)
-  -- labels
-  let labels := labels.mergeSort (labelLe e)
-  let (tp, rawLabels) ← (labels.flatMap (fun p => p.2.map (fun l => (p.1, l)))).foldlM
-    (init := ((⟨[], []⟩ : TextPool), ([] : List Nat))) (labelStep c)
-  -- strings
-  let textSorted := text.mergeSort bySource
-  let textStart := data0.length + rawCStrings.length
-    + (rawPointers.length + text.length + rawLabels.length) * 4
-  let (tp, data, groups) ← textSorted.foldlM
-    (init := (tp, data, ([] : List (Nat × List Nat)))) (textStep c e textStart)
-  let rawPointers := rawPointers ++ groups.flatMap (fun g => sortNat (g.2.map (· % 2 ^ 32)))
-  let fileSize := data0.length + rawCStrings.length + rawPointers.length * 4
-    + rawLabels.length * 4 + tp.raw.length + 0x20
-  let header := u32s e [fileSize, (data.length % 2 ^ 32 + rawCStrings.length % 2 ^ 32),
-    rawPointers.length, rawLabels.length / 2] ++ List.replicate 16 0
-  pure (header ++ data ++ rawCStrings ++ u32s e rawPointers ++ u32s e rawLabels ++ tp.raw)
+  match (pointers.mergeSort bySource).foldlM (fun d p => patchWord e d p.1 p.2) data0 with
+  | .ok data =>
+    let rawPointers := (pointers.mergeSort bySource).map (·.1)
+    -- labels
+    match ((labels.mergeSort (labelLe e)).flatMap (fun p => p.2.map (fun l => (p.1, l)))).foldlM
+        (labelStep c) ((⟨[], []⟩ : TextPool), ([] : List Nat)) with
+    | .ok (tp, rawLabels) =>
+      -- strings
+      let textStart := data0.length + rawCStrings.length
+        + (rawPointers.length + text.length + rawLabels.length) * 4
+      match (text.mergeSort bySource).foldlM (textStep c e textStart)
+          (tp, data, ([] : List (Nat × List Nat))) with
+      | .ok (tp, data, groups) =>
+        .ok (assemble e data0.length data rawCStrings rawPointers groups rawLabels tp.raw)
+      | .err er => .err er
+      | .panic => .panic
+    | .err er => .err er
+    | .panic => .panic
+  | .err er => .err er
+  | .panic => .panic
 
 /-- `serialize` (after fixes D1, D2). -/
-def serialize (c : Codec) (a : BinArchive) : Res Bytes := do
+def serialize (c : Codec) (a : BinArchive) : Res Bytes :=
   -- c-string pool (`:325-343`)
-  let cstrs := a.cstrings.mergeSort (cstrLe c)
-  let (pool, cptrs) ← cstrs.foldlM
-    (init := ((⟨[], []⟩ : TextPool), ([] : List (Nat × Nat)))) (cstringStep c a.data.length)
-  serializeTail c a.endian a.data (padTo4 pool.raw) (a.pointers ++ cptrs) a.labels a.text
+  match (a.cstrings.mergeSort (cstrLe c)).foldlM (cstringStep c a.data.length)
+      ((⟨[], []⟩ : TextPool), ([] : List (Nat × Nat))) with
+  | .ok (pool, cptrs) =>
+    serializeTail c a.endian a.data (padTo4 pool.raw) (a.pointers ++ cptrs) a.labels a.text
+  | .err er => .err er
+  | .panic => .panic
 
 /-! ### parsing -/
 
